@@ -25,4 +25,14 @@ if [ -f "$HERE/harness/cmd/$id/.race" ] || [ "$TIER" = thorough -a -f "$HERE/har
   fi
 fi
 cd "$HERE" || exit 2
-exec "$HERE/bin/$id" --tier "$TIER" --seed "${VERIF_SEED:-1}" $RACE
+# thorough: the plans of several consecutive seeds are united (exhaustive parts run once, seeded parts
+# once per seed); the numbers keep each thorough run within a few minutes (C11: eleven) on 16 idle cores
+SEEDS=1
+if [ "$TIER" = thorough ]; then
+  case "$ID" in
+    C01) SEEDS=6;; C02) SEEDS=2;; C03) SEEDS=4;; C04) SEEDS=4;; C05) SEEDS=6;; C06) SEEDS=4;; C07) SEEDS=20;;
+    C08) SEEDS=20;; C09) SEEDS=20;; C10) SEEDS=2;; C11) SEEDS=1;; C12) SEEDS=10;; C13) SEEDS=4;; C14) SEEDS=8;;
+    C15) SEEDS=3;; C16) SEEDS=3;; C17) SEEDS=6;; C18) SEEDS=4;; C19) SEEDS=4;; C20) SEEDS=8;;
+  esac
+fi
+exec "$HERE/bin/$id" --tier "$TIER" --seed "${VERIF_SEED:-1}" --seeds "${VERIF_SEEDS:-$SEEDS}" $RACE
